@@ -55,36 +55,69 @@ theorem user_work_wakes_now (e : Engine) (hw : e.pendingWrite = false) (hc : e.c
   · have : ¬ (e.pendingPub.length ≥ s.receiveMaximum) := by omega
     simp [h, this, hne]
 
+/-- the fold picking the earliest record: its result is below every record it has seen -/
+theorem foldl_earliest_le (l : List (Nat × Nat)) (init : Option (Nat × Nat)) :
+    ∃ x, l.foldl (fun best x => match best with | none => some x | some b => if x.2 < b.2 then some x else some b) init = x ∧
+      (∀ y ∈ l, ∃ b, x = some b ∧ b.2 ≤ y.2) ∧ (∀ i, init = some i → ∃ b, x = some b ∧ b.2 ≤ i.2) := by
+  induction l generalizing init with
+  | nil =>
+    refine ⟨init, rfl, ?_, ?_⟩
+    · intro y hy; cases hy
+    · intro i hi; exact ⟨i, hi, Nat.le_refl _⟩
+  | cons z zs ih =>
+    simp only [List.foldl]
+    obtain ⟨x, hx, h1, h2⟩ := ih (match init with | none => some z | some b => if z.2 < b.2 then some z else some b)
+    refine ⟨x, hx, ?_, ?_⟩
+    · intro y hy
+      rcases List.mem_cons.mp hy with rfl | hy
+      · cases init with
+        | none => exact h2 y rfl
+        | some b =>
+          by_cases hlt : y.2 < b.2
+          · exact h2 y (by simp [hlt])
+          · obtain ⟨c, hc, hle⟩ := h2 b (by simp [hlt])
+            exact ⟨c, hc, by omega⟩
+      · exact h1 y hy
+    · intro i hi
+      subst hi
+      by_cases hlt : z.2 < i.2
+      · obtain ⟨c, hc, hle⟩ := h2 z (by simp [hlt])
+        exact ⟨c, hc, by omega⟩
+      · exact h2 i (by simp [hlt])
+
 /-- **Connected: the reported time is never later than due queue work, the ping deadline, the next ping
-    (when no write is pending) or the earliest ack timeout of an operation that is not being written.** -/
+    (when no write is pending) or the ack timeout of ANY operation that is not being written** (the record of the operation
+    being written is deferred until its packet is complete, and hides no other record). -/
 theorem connected_time_covers_all_work (e : Engine) (hs : e.state = .connected) :
     ∃ t, e.nextServiceTime = some t ∧
       (∀ d, e.pingDeadline = some d → ∃ y, t = some y ∧ y ≤ d) ∧
-      (∀ id d, e.nextAckTimeout = some (id, d) → e.current ≠ some id → ∃ y, t = some y ∧ y ≤ d) ∧
+      (∀ id d, (id, d) ∈ e.timeouts → e.current ≠ some id → ∃ y, t = some y ∧ y ≤ d) ∧
       (e.pendingWrite = false → ∀ np, e.nextPing = some np → ∃ y, t = some y ∧ y ≤ np) ∧
       (e.pendingWrite = false → ∀ q, e.nextQueueTime true = some q → ∃ y, t = some y ∧ y ≤ q) := by
   simp only [Engine.nextServiceTime, hs]
-  -- t1: ping deadline folded with the earliest ack timeout
+  -- t1: ping deadline folded with the earliest applicable ack timeout
   have hping : ∀ d, e.pingDeadline = some d → ∃ y, e.foldAckTimeout (minOpt none e.pingDeadline) = some y ∧ y ≤ d := by
     intro d hd
     simp only [Engine.foldAckTimeout]
-    cases hn : e.nextAckTimeout with
+    cases hn : e.nextDueTimeout with
     | none => simp [minOpt, hd]
     | some x =>
       obtain ⟨id, d'⟩ := x
       simp only []
-      split
-      · obtain ⟨y, hy, _, hb⟩ := foldTime_le (minOpt none e.pingDeadline) d'
-        exact ⟨y, hy, hb d (by simp [minOpt, hd])⟩
-      · simp [minOpt, hd]
-  have hack : ∀ id d, e.nextAckTimeout = some (id, d) → e.current ≠ some id →
+      obtain ⟨y, hy, _, hb⟩ := foldTime_le (minOpt none e.pingDeadline) d'
+      exact ⟨y, hy, hb d (by simp [minOpt, hd])⟩
+  have hack : ∀ id d, (id, d) ∈ e.timeouts → e.current ≠ some id →
       ∃ y, e.foldAckTimeout (minOpt none e.pingDeadline) = some y ∧ y ≤ d := by
-    intro id d hn hne
-    simp only [Engine.foldAckTimeout, hn]
-    have : (e.current != some id) = true := by simp [hne]
-    simp only [this, ↓reduceIte]
-    obtain ⟨y, hy, hle, _⟩ := foldTime_le (minOpt none e.pingDeadline) d
-    exact ⟨y, hy, hle⟩
+    intro id d hmem hne
+    have hf : (id, d) ∈ e.timeouts.filter (fun x => e.current != some x.1) := by
+      refine List.mem_filter.mpr ⟨hmem, ?_⟩
+      simp [hne]
+    obtain ⟨x, hx, h1, _⟩ := foldl_earliest_le (e.timeouts.filter (fun x => e.current != some x.1)) none
+    obtain ⟨b, hb, hle⟩ := h1 _ hf
+    have hnd : e.nextDueTimeout = some b := hx.trans hb
+    simp only [Engine.foldAckTimeout, hnd]
+    obtain ⟨y, hy, hle2, _⟩ := foldTime_le (minOpt none e.pingDeadline) b.2
+    exact ⟨y, hy, by simp only at hle; omega⟩
   generalize e.foldAckTimeout (minOpt none e.pingDeadline) = t1 at hping hack ⊢
   by_cases hw : e.pendingWrite = true
   · simp only [hw, ↓reduceIte]
